@@ -31,6 +31,7 @@ fn prog(name: &str, setup: Vec<TOp>, threads: Vec<Vec<TOp>>) -> Arc<Prog> {
         threads,
         strict_unlink: true,
         fs_switch: false,
+        recover_at_removals: false,
     })
 }
 
@@ -114,6 +115,7 @@ pub fn c06_programs() -> Vec<Arc<Prog>> {
             threads,
             strict_unlink: true,
             fs_switch: false,
+            recover_at_removals: false,
         })
     };
     let pre = vec![Batch(vec![(0, Some(1)), (1, Some(2))])];
@@ -336,6 +338,7 @@ pub fn c03_programs() -> Vec<Arc<Prog>> {
             threads,
             strict_unlink: true,
             fs_switch,
+            recover_at_removals: false,
         })
     };
     let pre = vec![Put(0, 1, 8), Flush, Put(1, 2, 8), Flush];
@@ -360,6 +363,7 @@ pub fn c09_programs() -> Vec<Arc<Prog>> {
             threads,
             strict_unlink: false,
             fs_switch: false,
+            recover_at_removals: false,
         })
     };
     vec![
@@ -388,4 +392,32 @@ pub fn sched_assumptions(rep: &mut Report) {
     for a in SCHED_ASSUMPTIONS {
         rep.assume(a);
     }
+}
+
+/// C11 schedule part (b): a single writer whose puts rotate the memtable while another thread
+/// runs table compactions; at every file removal a crash image is recovered and must contain
+/// the writes acknowledged by then.
+pub fn c11_removal_programs() -> Vec<Arc<Prog>> {
+    let p = |name: &str, setup: Vec<TOp>, threads: Vec<Vec<TOp>>| {
+        Arc::new(Prog {
+            name: name.to_string(),
+            cfg: rot_cfg(),
+            keys: kab(),
+            setup,
+            threads,
+            strict_unlink: true,
+            fs_switch: false,
+            recover_at_removals: true,
+        })
+    };
+    let l0 = vec![Put(0, 1, 8), Flush, Put(0, 2, 8), Flush, Put(0, 3, 8), Flush, Put(0, 4, 8)];
+    vec![
+        p("writer-rotating||compact", l0.clone(), vec![vec![Put(1, 5, 8), Put(0, 6, 8), Put(1, 7, 8)], vec![Compact(None, None)]]),
+        p("writer-rotating||compact-range", l0.clone(), vec![vec![Put(1, 5, 8), Del(0), Put(1, 7, 8)], vec![Compact(Some(0), Some(0))]]),
+        p(
+            "writer-rotating||auto-compaction",
+            vec![Put(0, 1, 8), Flush, Put(0, 2, 8), Flush, Put(0, 3, 8), Flush, Put(0, 4, 8), Flush, Put(0, 5, 8), Flush, Put(0, 6, 8)],
+            vec![vec![Put(1, 7, 8), Put(0, 8, 8), Put(1, 9, 8)], vec![Get(0)]],
+        ),
+    ]
 }
